@@ -259,6 +259,33 @@ def run(ctx):
             'the line reader rewrites lines before tokenizing (%s): the content of multi-line string literals (trailing blanks before a line break) '
             'no longer equals what Python evaluates the text to' % [u(a) for a in assigns_r], rd.loc(), instance='reader-verbatim')
 
+  # the token stream is Python's own: every current token comes straight from the tokenizer, and a tokenizer error is not
+  # turned into a token (an "end of input" made up after an unterminated string accepts the text before it)
+  cpc = ctx.cls(CP)
+  stores_tok = []
+  for m_ in cpc.methods.values():
+    for a_ in walk_local(m_.node):
+      if isinstance(a_, ast.Assign) and any(u(t_) == 'self._current_token' for t_ in a_.targets):
+        stores_tok.append((m_, a_))
+  ctx.expect_at_least('assignments of the current token', len(stores_tok), 2)
+  bad_tok = [(m_, a_) for m_, a_ in stores_tok if m_.name != '__init__' and u(a_.value).replace(' ', '') != 'next(self._token_generator)']
+  made = [(m_, c_) for m_ in cpc.methods.values() for c_ in walk_local(m_.node)
+          if isinstance(c_, ast.Call) and u(c_.func) in ('tokenize.TokenInfo', 'TokenInfo')]
+  swallowed = []
+  for m_ in cpc.methods.values():
+    for t_ in walk_local(m_.node):
+      if isinstance(t_, ast.Try) and any(isinstance(c_, ast.Call) and u(c_.func) == 'next' and 'token_generator' in u(c_) for x_ in t_.body for c_ in ast.walk(x_)):
+        for h_ in t_.handlers:
+          names_ = u(h_.type) if h_.type is not None else 'BaseException'
+          if any(k_ in names_ for k_ in ('TokenError', 'Exception', 'BaseException', 'SyntaxError')) and \
+              not (h_.body and isinstance(h_.body[-1], ast.Raise)):
+            swallowed.append((m_, h_))
+  ctx.check(not bad_tok and not made and not swallowed, 'C02.delegate', construct(ctx.func(CP + '._advance_one_token')),
+            'every token is the tokenizer\'s own next token; tokenizer errors propagate',
+            'the parser substitutes tokens of its own (%s): text the tokenizer rejects (an unterminated string, a malformed number after a complete value) '
+            'is then read as if the input ended there' % ([u(a_.value) for _m, a_ in bad_tok] + [u(c_) for _m, c_ in made] + ['except %s' % (u(h_.type) if h_.type is not None else '') for _m, h_ in swallowed])[:3],
+            (bad_tok or made or swallowed or [(ctx.func(CP + '._advance_one_token'), None)])[0][0].loc(), instance='token-source')
+
   # ---- C02.containers
   mc = ctx.func(CP + '._maybe_parse_container')
   table = None
